@@ -196,6 +196,10 @@ func (reader *H264Reader) NextNAL() (*NAL, error) {
 	nal := newNal(reader.nalBuffer)
 	reader.nalBuffer = nil
 	nal.parseHeader()
+	// the last unit of the stream is subject to the SEI filter like any other
+	if !reader.includeSEI && nal.UnitType == NalUnitTypeSEI {
+		return nil, io.EOF
+	}
 
 	return nal, nil
 }
